@@ -322,6 +322,56 @@ fn add<V: Full>(prop: &mut Property, ctx: &Ctx) {
     }
 }
 
+/// RegisteredClaims as the payload type: all 128 presence masks, sealed and unsealed through every backend
+fn claims_carrier<V: Full>(prop: &mut Property) {
+    use paseto_json::RegisteredClaims;
+    use paseto_json::jiff::Timestamp;
+    let name = V::NAME;
+    prop.subs.push(
+        Sub::new(format!("{name}/registered-claims"), 128 * 2, "{local, public} x all 2^7 presence masks of RegisteredClaims (distinct value per field): the unsealed claims equal the sealed ones field by field", move |idx, describe| {
+            let local = idx % 2 == 0;
+            let mask = idx / 2;
+            let ts = |k: i64| Timestamp::new(1_700_000_000 + k, (k as i32) * 7).unwrap();
+            let c = RegisteredClaims {
+                iss: (mask & 1 != 0).then(|| "issuer".to_string()),
+                sub: (mask & 2 != 0).then(|| "subject".to_string()),
+                aud: (mask & 4 != 0).then(|| "audience".to_string()),
+                exp: (mask & 8 != 0).then(|| ts(3)),
+                nbf: (mask & 16 != 0).then(|| ts(1)),
+                iat: (mask & 32 != 0).then(|| ts(2)),
+                jti: (mask & 64 != 0).then(|| "token-id".to_string()),
+            };
+            let mut o = Outcome::new();
+            if describe {
+                o.sample = Some(json!({"backend": name, "local": local, "mask": format!("{mask:07b}")}));
+            }
+            let ks = keys::keyset::<V>(false, 0);
+            let nv = NoValidation::<RegisteredClaims>::dangerous_no_validation();
+            let r = subject(|| -> Result<RegisteredClaims, paseto_core::PasetoError> {
+                if local {
+                    let k = keys::local::<V>(&ks.locals[2].bytes);
+                    let s = ops::seal_local_with::<V, _, _>(&k, c.clone(), (), b"", &Nonce::Lib)?.to_string();
+                    let t: SealedToken<V, Local, RegisteredClaims, ()> = s.parse()?;
+                    Ok(t.decrypt(&k, &nv)?.claims)
+                } else {
+                    let k = keys::secret::<V>(&ks.secrets[0].bytes);
+                    let s = ops::seal_public_with::<V, _, _>(&k, c.clone(), (), b"", &Nonce::Lib)?.to_string();
+                    let t: SealedToken<V, Public, RegisteredClaims, ()> = s.parse()?;
+                    Ok(t.verify(&k.public_key(), &nv)?.claims)
+                }
+            });
+            match r {
+                Ok(Ok(d)) if d.iss == c.iss && d.sub == c.sub && d.aud == c.aud && d.exp == c.exp && d.nbf == c.nbf && d.iat == c.iat && d.jti == c.jti => o.class("roundtrip-ok"),
+                Ok(Ok(d)) => o.violate(format!("{name}/registered-claims/mismatch"), format!("claims differ after the round trip: sealed {c:?}, unsealed {d:?}"), json!({})),
+                Ok(Err(e)) => o.violate_env(format!("{name}/registered-claims/error"), format!("round trip failed with {} for claims {c:?}", err_kind(&e)), json!({})),
+                Err(p) => o.violate(format!("{name}/registered-claims/panic"), p, json!({})),
+            }
+            o
+        })
+        .witness(&["roundtrip-ok"]),
+    );
+}
+
 pub fn build(ctx: &Ctx) -> Property {
     let mut p = Property::new("C01", "exploration");
     add::<crate::backends::V1>(&mut p, ctx);
@@ -330,6 +380,12 @@ pub fn build(ctx: &Ctx) -> Property {
     add::<crate::backends::V3L>(&mut p, ctx);
     add::<crate::backends::V4>(&mut p, ctx);
     add::<crate::backends::V4S>(&mut p, ctx);
+    claims_carrier::<crate::backends::V1>(&mut p);
+    claims_carrier::<crate::backends::V2>(&mut p);
+    claims_carrier::<crate::backends::V3>(&mut p);
+    claims_carrier::<crate::backends::V3L>(&mut p);
+    claims_carrier::<crate::backends::V4>(&mut p);
+    claims_carrier::<crate::backends::V4S>(&mut p);
     // "every value the signature scheme can produce, including r, s with leading zero bytes":
     // aws-lc's ECDSA nonce is chosen through the cfg(paseto_verif) seam so that every width class is reached
     p.subs.push(crate::c03::ecdsa_nonce_sub(ctx));
